@@ -61,13 +61,16 @@ def _list_slice(slize: Slice) -> List[Slice]:
     """Internal recursive helper for `resolve_slice`.
     Returns a list of Slices in which each element has a concrete Signal for its parent."""
 
-    # Resolve "full-width" slices to their parent Signals
-    if width(slize) == width(slize.parent):
+    # Resolve "full-width", in-order slices to their parent Signals
+    if slize.step == 1 and width(slize) == width(slize.parent):
         # Return a single-element list, after resolution
         return [_resolve_sliceable(slize.parent)]
 
     if isinstance(slize.parent, Signal):
-        return [slize]  # Already all good! Just make a one-element list.
+        if slize.step == 1:
+            return [slize]  # Already all good! Just make a one-element list.
+        # Non-unit steps: one single-bit slice per selected index, in selection order
+        return [slize.parent[idx] for idx in _indices(slize)]
 
     # Do some actual work. Recursively peel off a bit at a time.
     if width(slize) == 1:
@@ -75,7 +78,8 @@ def _list_slice(slize: Slice) -> List[Slice]:
 
         if isinstance(slize.parent, Slice):
             parent = slize.parent  # Note this is also a Slice
-            return _list_slice(parent.parent[parent.bot + slize.bot])
+            # Our index selects the `slize.bot`th entry of the parent's own selection
+            return _list_slice(parent.parent[_indices(parent)[slize.bot]])
 
         if isinstance(slize.parent, Concat):
             idx = 0  # Find the `part` including our index
@@ -88,18 +92,19 @@ def _list_slice(slize: Slice) -> List[Slice]:
 
         raise TypeError(f"Invalid attempt to resolve slicing on {slize}")
 
-    # Otherwise recurse in something like a "cons" pattern, splitting between the first bit and the rest.
-    step = slize.step
-    if step < 0:  # Negative step, begin from `top`
-        first = _list_slice(slize.parent[slize.top])
-        rest = slize.parent[slize.top + step : slize.bot : step]
-        rest = _list_slice(rest)
+    # Otherwise resolve each selected bit of the parent, in selection order
+    result = []
+    for idx in _indices(slize):
+        result.extend(_list_slice(slize.parent[idx]))
+    return result
 
-    else:  # Positive step, begin from `bot`
-        first = _list_slice(slize.parent[slize.bot])
-        rest = _list_slice(slize.parent[slize.bot + step : slize.top : step])
 
-    return first + rest
+def _indices(slize: Slice) -> range:
+    """The indices into its parent selected by `slize`, in selection order.
+    Note `top` is exclusive and `bot` inclusive; negative steps run downward from `top - 1`."""
+    if slize.step > 0:
+        return range(slize.bot, slize.top, slize.step)
+    return range(slize.top - 1, slize.bot - 1, slize.step)
 
 
 def _resolve_slice(slize: Slice) -> Sliceable:
@@ -139,33 +144,15 @@ def _resolve_concat(conc: Concat) -> Concat:
     if not len(conc.parts):
         raise RuntimeError("Concatenation with no parts")
 
-    if all(_flat_concatable(p) for p in conc.parts):
-        return Concat(*[_resolve_sliceable(p) for p in conc.parts])
-
-    if isinstance(conc.parts[0], Concat):
-        # Recursively cover the first element, and all others
-        first = _resolve_concat(conc.parts[0])
-        rest = _resolve_concat(Concat(*conc.parts[1:]))
-        return Concat(*(first.parts + rest.parts))
-
-    if isinstance(conc.parts[0], Slice):
-        # Resolve everything within the Slice to a list of concrete-Signal slices
-        first = _resolve_slice(conc.parts[0])
-        # Pass everything else recursively back to this method
-        rest = _resolve_concat(Concat(*conc.parts[1:]))
-        # And concatenate the two
-        return Concat(*(first + rest.parts))
-
-    # Otherwise peel off as many Signals and concrete-Signal Slices as we can
-    for idx in range(len(conc.parts)):
-        if _flat_concatable(conc.parts[idx]):
-            continue
-        # Hit our first "compound" entry. Split the list here.
-        first = conc.parts[:idx]
-        rest = _resolve_concat(Concat(*conc.parts[idx:]))
-        return Concat(*(first + rest.parts))
-
-    raise RuntimeError("Unable to resolve concatenation")
+    # Resolve each part, splicing in the parts of any nested (or newly created) concatenations
+    parts = []
+    for part in conc.parts:
+        resolved = _resolve_sliceable(part)
+        if isinstance(resolved, Concat):
+            parts.extend(resolved.parts)
+        else:
+            parts.append(resolved)
+    return Concat(*parts)
 
 
 def _resolve_ref(ref: Union[PortRef, BundleRef]) -> Sliceable:
